@@ -103,6 +103,9 @@ def prove_property(pid, tier="quick", log=print):
                     report["undecided"].append({"function": c.target, "kind": "expected-obligation-missing", "detail": exp})
             if not rep.obligations and rep.func is not None:
                 report["undecided"].append({"function": c.target, "kind": "zero-obligations", "detail": ""})
+        if hasattr(mod, "static_obligations"):
+            for rec in mod.static_obligations(loader):
+                report["obligations"].append(rec)
         if hasattr(mod, "lemmas"):
             for item in mod.lemmas():
                 name, hyps, goal = item[:3]
